@@ -151,6 +151,20 @@ CHECKS['C05'] = {
                  'bounded exhaustive enumeration of token sequences',
 }
 
+CHECKS['C04'] = {
+    'text': 'Bounded symbolic model checking of type soundness: every registered function and operator overload (about '
+            '240, enumerated from the live registries) is executed on conforming arguments (symbolic ints, bools, dates, '
+            'intervals, short strings; palette decimals, amounts, positions, inventories, collections) and must return '
+            'NULL or a value of its announced datatype without TypeError / AttributeError; every aggregate over every '
+            'argument datatype; the COALESCE uniformity rule over all datatype pairs; wide aggregate queries; a renderer '
+            'exists for every announced datatype. Column datatypes of the ledger tables are checked with C11.',
+    'design_ref': 'DESIGN.md section 5, C04',
+    'note': _COMMON_NOTE + ' Collections are compared by kind and `object` admits anything, as the property says. '
+            'Value errors of a function on out-of-domain arguments (e.g. an invalid regular expression) are not type '
+            'errors and are outside this property.',
+    'technique': 'symbolic execution (CrossHair/z3) of every overload body and aggregator with typed stub operands',
+}
+
 NOT_APPLICABLE = {
     pid: 'check under construction in this session; not claimed yet'
     for pid in [ 'C04', 'C06', 'C11', 'C12', 'C13',
